@@ -5,6 +5,7 @@ import (
 	"fmt"
 	"mime/multipart"
 	"net/url"
+	"strings"
 
 	"github.com/getkin/kin-openapi/zzsimrt"
 
@@ -21,6 +22,11 @@ type Spec struct {
 	// ColdPatterns: the document was validated with pattern validation disabled,
 	// so every pattern is first compiled among the concurrent calls.
 	ColdPatterns bool `json:"cold_patterns,omitempty"`
+	// PlainDoc: the document variant without schema defaults (document validation
+	// validates no value). Generated for the first run of every worker process:
+	// whatever the library initialises lazily at the first validation of a value
+	// is then first touched among the concurrent calls.
+	PlainDoc bool `json:"plain_doc,omitempty"`
 }
 
 func petBody(r *simfw.RNG, m string, valid bool) string {
@@ -213,5 +219,15 @@ func Gen(seed uint64, tier string) *Spec {
 		s.MapSeed = r.Uint64() | 1
 	}
 	s.ColdPatterns = r.Bool()
+	if strings.HasSuffix(tier, "/first") {
+		// first run of a process: cold for everything lazily initialised; callers go straight to validations
+		s.PlainDoc, s.ColdPatterns = true, true
+		for g := range s.Callers {
+			s.Callers[g][0] = genOp(simfw.NewRNG(seed+uint64(g)*977), s.Marker)
+			for tries := 0; tries < 20 && s.Callers[g][0].Kind != "vreq" && s.Callers[g][0].Kind != "visit" && s.Callers[g][0].Kind != "vresp"; tries++ {
+				s.Callers[g][0] = genOp(r, s.Marker)
+			}
+		}
+	}
 	return s
 }
